@@ -567,6 +567,9 @@ func (ex *Exec) atExit(e *State, fs *FuncSpec, u *Unit, rets []*Val, sig *types.
 		}
 		ex.specNoLocals = saveNL
 	}
+	if fs != nil && !frameChecked(fs) {
+		ex.frameObligations(e, fs, pos)
+	}
 	// canary: must not be provable
 	full := ex.FName + "/canary"
 	ob := ex.Obs[full]
@@ -1319,4 +1322,205 @@ func (ex *Exec) lemmaInstance(st *State, src string, where string) *Term {
 		ex.W.Trusted["axiom (unproved): "+l.Name+": "+l.Body] = true
 	}
 	return g
+}
+
+// frameObligations: the frame the callers of a function under contract rely
+// on ("it changes nothing its callers can see except what its modifies clause
+// lists and objects it allocates") as obligations of the function itself: for
+// every struct-field, slice-element, map and box heap this exit path has
+// changed, every object that existed at entry still has its entry value -
+// unless the heap is named by the modifies clause, or the field is protected
+// by a lock this function acquires itself (callers cannot hold that lock and
+// re-read the field under their own acquisition, where it is havocked anyway).
+func (ex *Exec) frameObligations(e *State, fs *FuncSpec, pos token.Pos) {
+	if os.Getenv("GOVC_NOFRAME") != "" || ex.entryState == nil {
+		return
+	}
+	exempt := map[string]bool{}
+	anyMem := false
+	for _, m := range fs.Modifies {
+		m = strings.TrimSpace(m)
+		switch {
+		case strings.HasPrefix(m, "Mem("):
+			anyMem = true
+		case strings.HasPrefix(m, "heap(") && strings.HasSuffix(m, ")"):
+			exempt[m[5:len(m)-1]] = true
+		default:
+			if i := strings.LastIndex(m, "."); i >= 0 {
+				exempt[m[i+1:]] = true
+			}
+		}
+	}
+	// fields protected by a lock taken in this body
+	for _, ts := range ex.unitTypeSpecs() {
+		for lname, ls := range ts.Locks {
+			if !ex.locksTaken[ts.Name+"."+lname] {
+				continue
+			}
+			for _, p := range ls.Protects {
+				exempt[p] = true
+			}
+		}
+		for _, g := range ts.Ghosts {
+			exempt[g.Name] = true
+		}
+	}
+	// what the body (with the helpers executed in place) assigns at all: a
+	// heap that is only ever read here can differ from its entry value only
+	// through what other threads do while this one waits, which is not this
+	// function's effect
+	assigned, mapWrites := ex.assignedFields()
+	// maps held in a field protected by a lock taken here
+	for _, ts := range ex.unitTypeSpecs() {
+		for lname, ls := range ts.Locks {
+			if !ex.locksTaken[ts.Name+"."+lname] {
+				continue
+			}
+			for _, p := range ls.Protects {
+				if ft := ex.fieldTypeOfSpec(ts, p); ft != nil {
+					if mt, ok := ft.Underlying().(*types.Map); ok {
+						vn, hn, _, _ := ex.mapHeaps(e, mt)
+						exempt[vn], exempt[hn] = true, true
+					}
+				}
+			}
+		}
+	}
+	var names []string
+	for k := range e.heaps {
+		names = append(names, k)
+	}
+	sort.Strings(names)
+	a0 := ex.entryAlloc
+	r := mk("r?", SInt)
+	for _, k := range names {
+		isField := strings.HasPrefix(k, "H$")
+		isMem := strings.HasPrefix(k, "Mem$")
+		isMap := strings.HasPrefix(k, "Map$") || strings.HasPrefix(k, "MapHas$")
+		isBox := strings.HasPrefix(k, "Box$")
+		// slice-element memory and boxes are left to explicit frame
+		// postconditions (writesOnlySpare, onlyFreshWritten): loops that fill
+		// a fresh slice replace the whole memory by a symbol their invariants
+		// would have to pin down again
+		_, _ = isMem, isBox
+		if !(isField || isMap) {
+			continue
+		}
+		now := e.heaps[k]
+		was, ok := ex.entryState.heaps[k]
+		if !ok {
+			// first touched after entry: its entry value is the initial symbol
+			srt, known := ex.heapSorts[k]
+			if !known {
+				continue
+			}
+			was = ex.D.konst(k+"@0", srt)
+		}
+		if was == now || (was.Op == now.Op && len(now.Args) == 0) {
+			continue
+		}
+		if isMem && anyMem {
+			continue
+		}
+		short := k
+		if i := strings.LastIndex(k, "$"); i >= 0 {
+			short = k[i+1:]
+		}
+		if isField && (exempt[short] || strings.HasPrefix(short, "$") || !assigned[short]) {
+			continue
+		}
+		if isMap && !mapWrites {
+			continue
+		}
+		if exempt[k] {
+			continue
+		}
+		goal := forall([]*Term{r}, implies(and(gt(r, intLit(0)), lt(r, a0)), eq(sel(now, r), sel(was, r))), []*Term{sel(now, r)})
+		label := short
+		if isMap {
+			label = strings.ReplaceAll(strings.TrimPrefix(strings.TrimPrefix(k, "MapHas$"), "Map$"), "$", "_to_")
+			if strings.HasPrefix(k, "MapHas$") {
+				label = "keys_of_map_" + label
+			} else {
+				label = "values_of_map_" + label
+			}
+		}
+		ex.oblige(e, "frame", label, pos, goal, nil)
+	}
+}
+
+func (ex *Exec) unitTypeSpecs() []*TypeSpec {
+	var out []*TypeSpec
+	for _, u := range ex.W.Units {
+		for _, ts := range u.TSpecs {
+			out = append(out, ts)
+		}
+	}
+	sort.Slice(out, func(i, j int) bool { return out[i].Name < out[j].Name })
+	return out
+}
+
+// assignedFields: names of the fields the unit's body (and the helpers it
+// executed in place) assigns through a selector, and whether it stores into,
+// deletes from or clears any map.
+func (ex *Exec) assignedFields() (map[string]bool, bool) {
+	fields := map[string]bool{}
+	maps := false
+	lhs := func(x ast.Expr) {
+		switch l := ast.Unparen(x).(type) {
+		case *ast.SelectorExpr:
+			fields[l.Sel.Name] = true
+		case *ast.IndexExpr:
+			if t := ex.typeOf(l.X); t != nil {
+				if _, ok := t.Underlying().(*types.Map); ok {
+					maps = true
+				}
+			} else {
+				maps = true
+			}
+			// an element of an array-typed field
+			if sel, ok := ast.Unparen(l.X).(*ast.SelectorExpr); ok {
+				fields[sel.Sel.Name] = true
+			}
+		case *ast.StarExpr:
+			// *p = v where p may point at a field: every field whose address is taken somewhere
+			for f := range ex.W.addrTakenFields() {
+				fields[f.Name()] = true
+			}
+		}
+	}
+	bodies := append([]ast.Node{ex.unitBody}, ex.inlinedBodies...)
+	for _, b := range bodies {
+		if b == nil {
+			continue
+		}
+		ast.Inspect(b, func(n ast.Node) bool {
+			switch s := n.(type) {
+			case *ast.AssignStmt:
+				for _, l := range s.Lhs {
+					lhs(l)
+				}
+			case *ast.IncDecStmt:
+				lhs(s.X)
+			case *ast.CallExpr:
+				if id, ok := ast.Unparen(s.Fun).(*ast.Ident); ok && (id.Name == "delete" || id.Name == "clear") {
+					maps = true
+				}
+			}
+			return true
+		})
+	}
+	return fields, maps
+}
+
+func (ex *Exec) fieldTypeOfSpec(ts *TypeSpec, field string) types.Type {
+	for _, u := range ex.W.Units {
+		if u.TSpecs[ts.Name] != ts {
+			continue
+		}
+		if o := u.Pkg.Types.Scope().Lookup(ts.Name); o != nil {
+			return ex.fieldTypeByName(o.Type(), field)
+		}
+	}
+	return nil
 }
